@@ -429,12 +429,14 @@ pub trait MapValidBasic<T: IsNone>: TrustedLen<Item = T> + Sized {
                 } else {
                     let value = value.unwrap();
                     let mut out = None;
-                    for (bound, label) in bins
+                    for (i, (bound, label)) in bins
                         .titer()
                         .tuple_windows::<(T::Inner, T::Inner)>()
                         .zip(labels.titer())
+                        .enumerate()
                     {
-                        if (bound.0 < value) && (value <= bound.1) {
+                        // with open bounds the first interval has no lower end
+                        if ((add_bounds && i == 0) || bound.0 < value) && (value <= bound.1) {
                             out = Some(label.clone());
                             break;
                         }
@@ -449,12 +451,15 @@ pub trait MapValidBasic<T: IsNone>: TrustedLen<Item = T> + Sized {
                 } else {
                     let value = value.unwrap();
                     let mut out = None;
-                    for (bound, label) in bins
+                    let n_bins = bins.len();
+                    for (i, (bound, label)) in bins
                         .titer()
                         .tuple_windows::<(T::Inner, T::Inner)>()
                         .zip(labels.titer())
+                        .enumerate()
                     {
-                        if (bound.0 <= value) && (value < bound.1) {
+                        // with open bounds the last interval has no upper end
+                        if (bound.0 <= value) && ((add_bounds && i + 2 == n_bins) || value < bound.1) {
                             out = Some(label.clone());
                             break;
                         }
